@@ -229,6 +229,38 @@ def surgery(ctx: Ctx):
                (f"{n_sc} scatter_ rewrites; every argsort they use is of the current or the original list" if not stale else
                 f"a scatter_ rewrites the list using an argsort taken from an intermediate version that was modified afterwards (stale predecessor table): {vg.show(stale[0][1], 3)}"),
                construct=f"{fi.qualname}:stale-argsort")
+        # second clause: an inverse (predecessor table) is only taken of a list that IS a permutation.  Unlinking node x
+        # (`rec[pre(x)] = rec[x]`) leaves x's own entry behind: two nodes point to x's old successor and nobody points to x.  The list
+        # becomes a permutation again when x is made a self-loop (`rec[x] = x`) -- only then `argsort()` / a scatter of arange is the inverse.
+        chain = [ret] + [o for o in versions(ret) if isinstance(o, vg.S)]
+        chain = [c_ for c_ in reversed(chain)]
+        def _is_inverse(a_):
+            if a_.op == "meth" and a_.args[1] == "argsort":
+                return a_.args[0]
+            if a_.op == "meth" and a_.args[1] in ("scatter_", "scatter") and len(a_.args) >= 5 and nf._fn(nf.strip(a_.args[0])) in ("torch.empty_like", "torch.zeros_like", "torch.empty", "torch.zeros") \
+                    and any(nf._fn(x_) == "torch.arange" for x_ in vg.walk(a_.args[4])):
+                return a_.args[3]
+            return None
+        dangling, perm_of = set(), {}
+        for v_ in chain:
+            if v_.op == "meth" and v_.args[1] == "scatter_" and len(v_.args) >= 5 and isinstance(v_.args[3], vg.S) and isinstance(v_.args[4], vg.S):
+                idx_, val_ = nf.strip(v_.args[3]), nf.strip(v_.args[4])
+                if idx_.id == val_.id and idx_.id in dangling:
+                    dangling.discard(idx_.id)                      # self-loop of an unlinked node
+                elif idx_.op == "meth" and idx_.args[1] == "gather" and val_.op == "meth" and val_.args[1] == "gather" and len(idx_.args) >= 4 and len(val_.args) >= 4 \
+                        and _is_inverse(nf.strip(idx_.args[0])) is not None and nf.strip(idx_.args[3]).id == nf.strip(val_.args[3]).id:
+                    dangling.add(nf.strip(idx_.args[3]).id)        # unlink of node x: rec[pre(x)] = rec[x]
+            perm_of[v_.id] = not dangling
+        not_perm = []
+        for n in vg.walk(ret):
+            src_ = _is_inverse(n) if isinstance(n, vg.S) else None
+            if src_ is not None and isinstance(src_, vg.S) and perm_of.get(src_.id, True) is False:
+                not_perm.append(n)
+        ctx.ob("C09.f", f"{cname}._local_operator:inverse-of-a-permutation", not not_perm, fi.loc,
+               f"{len(chain)} versions of the successor list; every predecessor table is taken of a version that is a permutation" if not not_perm else
+               f"a predecessor table is computed from a list in which an unlinked node has not been made a self-loop yet ({vg.show(not_perm[0], 3)[:80]}): the list is not a permutation there, "
+               "its `inverse` is arbitrary for the doubly-pointed node and the next unlink cuts the tour at the wrong place",
+               construct=f"{fi.qualname}:inverse-of-a-non-permutation")
         # absorbing walks
         n_walks = 0
         for node in ast.walk(fi.node):
@@ -445,6 +477,14 @@ def neuopt_padding(ctx: Ctx):
                f"`{table}[:, i]` is written from `{v}` after where(stopped, {table}[:, :1], {v}): {ok}" +
                ("" if ok else " -- rows that already closed their move record arbitrary sampled nodes; TSPkoptEnv._local_operator takes them as further exchange points"),
                construct="NeuOptPolicy.forward:record-after-padding")
+        # every one of the k_max slots is written: the loop runs to the end (no break / return / continue before the store)
+        exits = [type(x).__name__.lower() for st in lp.body for x in ast.walk(st) if isinstance(x, (ast.Break, ast.Return))] + \
+                [type(x).__name__.lower() for st in lp.body[:stores[0] + 1 if stores else len(lp.body)] for x in ast.walk(st) if isinstance(x, ast.Continue)]
+        full = isinstance(lp.iter, ast.Call) and ast.unparse(lp.iter.func) == "range" and len(lp.iter.args) == 1 and "k_max" in ast.unparse(lp.iter.args[0])
+        ctx.ob("C09.k", "NeuOptPolicy.forward:every-slot-written", not exits and full, fi.loc,
+               f"the decoding loop runs over range(k_max): {full}; early exits in its body: {exits or 'none'}" +
+               ("" if (not exits and full) else " -- the slots of the skipped iterations keep their initial value, which the env reads as exchange points (the padding written by the remaining iterations is what says `no further exchange`)"),
+               construct="NeuOptPolicy.forward:decoding-loop-early-exit")
     if found != 1:
         raise AnalysisError(f"NeuOptPolicy.forward: expected one decoding loop with a stopped-row override, found {found}")
 
